@@ -14,7 +14,7 @@
 
    Constants name the code's behaviour:
      HelloVerify          - the server demands the cookie round
-     ServerChecksFinished - flight4Parse compares the client's verify_data (pinned tree: FALSE for the full handshake)
+     ServerChecksFinished - flight4Parse compares the client's verify_data (pinned tree: FALSE for the full handshake; TRUE since the fix e73d0d6)
      ClientChecksFinished - flight5Parse compares the server's verify_data (TRUE)
      ServerReselects      - a repeated cookie-bearing ClientHello makes the server generate a NEW ServerHello
                             (FALSE: the first selection is cached and re-sent)
